@@ -7,7 +7,9 @@ From Shroud Require Import Base.Ustr Model.Splicer Model.Lexer Model.Expr Model.
 Import ListNotations.
 
 (* ---- the tokens a declaration of the fragment stands for ---- *)
-Definition spec_tok (w : ustr) : tok := {| tk := TYPE_SPECIFIER; tv := w |}.
+(* a built-in type word is a TYPE_SPECIFIER token, any other word of a specifier is an identifier (a type name) *)
+Definition spec_wordb (w : ustr) : bool := ustr_in w (map cp type_specifier).
+Definition spec_tok (w : ustr) : tok := {| tk := if spec_wordb w then TYPE_SPECIFIER else ID; tv := w |}.
 Fixpoint join_toks (l : list (list tok)) : list tok :=
   match l with [] => [] | [x] => x | x :: r => x ++ tok_of COMMA "," :: join_toks r end.
 
@@ -40,6 +42,23 @@ Definition callable (d : declarator) : bool :=
 
 Definition void_decl : decl := Decl [cp "void"] [] false false (cp "void") None None [] [] AVNone [] false.
 
+(* the type: built-in words resolving to a known typemap, or one unqualified name of a type in scope (not the
+   enclosing class itself, which would make "Name (" a constructor) *)
+Definition named_type (c : pctx) (spec : list ustr) : option (nat * ustr) :=
+  match spec with
+  | [n] => if spec_wordb n then None else
+           match sym_lookup n (scope c) with
+           | Some (Sym id _ (TmName tm) _) => Some (id, tm)
+           | _ => None
+           end
+  | _ => None
+  end.
+Definition spec_okb (c : pctx) (spec : list ustr) (tm : ustr) : bool :=
+  match named_type c spec with
+  | Some (id, tm') => ueqb tm tm' && negb (cur_is_class c && Nat.eqb (cur_id c) id)
+  | None => forallb spec_wordb spec && ueqb tm (canonical (join_us spec)) && ustr_in tm (known_types c)
+  end.
+
 Fixpoint in_fragment (c : pctx) (d : decl) : bool :=
   let '(Decl spec storage cst vol tm dt params arr attrs init targs fconst) := d in
   match spec with [] => false | _ => true end &&
@@ -48,7 +67,7 @@ Fixpoint in_fragment (c : pctx) (d : decl) : bool :=
   match attrs with [] => true | _ => false end &&
   match init with AVNone => true | _ => false end &&
   match targs with [] => true | _ => false end &&
-  ueqb tm (canonical (join_us spec)) && ustr_in tm (known_types c) &&
+  spec_okb c spec tm &&
   match dt with Some x => wf_dtorb c x | None => true end &&
   match params with
   | None => negb fconst
@@ -99,44 +118,52 @@ Definition s_init : spec_state :=
   {| ss_spec := []; ss_storage := []; ss_const := false; ss_volatile := false; ss_tm := None; ss_targs := [];
      ss_ctor := false; ss_dtor := None |}.
 
-Lemma fold_spec_words_only : forall ws s,
+Lemma fold_spec_words_only : forall ws s, forallb spec_wordb ws = true ->
   fold_left spec_step (map spec_tok ws) s =
   {| ss_spec := ss_spec s ++ ws; ss_storage := ss_storage s; ss_const := ss_const s; ss_volatile := ss_volatile s;
      ss_tm := ss_tm s; ss_targs := ss_targs s; ss_ctor := ss_ctor s; ss_dtor := ss_dtor s |}.
 Proof.
-  induction ws as [|w ws IH]; intros s; cbn [map fold_left].
+  induction ws as [|w ws IH]; intros s Hw; cbn [map fold_left].
   - rewrite app_nil_r. destruct s; reflexivity.
-  - rewrite IH. unfold spec_step, spec_tok. cbn [tk tv ss_spec ss_storage ss_const ss_volatile ss_tm ss_targs ss_ctor ss_dtor].
+  - cbn [forallb] in Hw. apply andb_true_iff in Hw. destruct Hw as [Hw Hws].
+    rewrite IH by exact Hws. unfold spec_step, spec_tok. rewrite Hw. cbn [tk tv ss_spec ss_storage ss_const ss_volatile ss_tm ss_targs ss_ctor ss_dtor].
     rewrite <- app_assoc. reflexivity.
 Qed.
 
 Definition head_toks (c v : bool) (spec : list ustr) : list tok :=
   (if c then [tok_of TYPE_QUALIFIER "const"] else []) ++ (if v then [tok_of TYPE_QUALIFIER "volatile"] else []) ++ map spec_tok spec.
 
-Lemma head_toks_spec c v spec : forallb is_spec_tok (head_toks c v spec) = true.
+Lemma head_toks_spec c v spec : forallb spec_wordb spec = true -> forallb is_spec_tok (head_toks c v spec) = true.
 Proof.
-  unfold head_toks. rewrite !forallb_app. destruct c, v; cbn [forallb andb is_spec_tok tok_of tk];
-    (induction spec as [|w ws IH]; [reflexivity | cbn [map forallb is_spec_tok spec_tok tk andb]; exact IH]).
+  intros Hw. unfold head_toks. rewrite !forallb_app.
+  assert (Hm : forallb is_spec_tok (map spec_tok spec) = true).
+  { induction spec as [|w ws IH]; [reflexivity|]. cbn [forallb] in Hw. apply andb_true_iff in Hw. destruct Hw as [Hw Hws].
+    cbn [map forallb]. rewrite (IH Hws). unfold is_spec_tok, spec_tok. rewrite Hw. reflexivity. }
+  rewrite Hm. destruct c, v; reflexivity.
 Qed.
 
-Lemma head_toks_fold c v spec :
+Lemma head_toks_fold c v spec : forallb spec_wordb spec = true ->
   fold_left spec_step (head_toks c v spec) s_init =
   {| ss_spec := spec; ss_storage := []; ss_const := c; ss_volatile := v; ss_tm := None; ss_targs := [];
      ss_ctor := false; ss_dtor := None |}.
 Proof.
-  unfold head_toks. rewrite !fold_left_app, fold_spec_words_only.
+  intros Hw. unfold head_toks. rewrite !fold_left_app, fold_spec_words_only by exact Hw.
   destruct c, v; reflexivity.
 Qed.
 
 Lemma head_toks_length c v spec : List.length (head_toks c v spec) <= 2 + List.length spec.
 Proof. unfold head_toks. rewrite !app_length, map_length. destruct c, v; cbn [List.length]; lia. Qed.
 
+Definition starts_decl (t : tok) : bool :=
+  match tk t with TYPE_QUALIFIER | TYPE_SPECIFIER | ID => true | _ => false end.
+
 Lemma head_first c v spec : spec <> [] ->
-  exists t r, head_toks c v spec = t :: r /\ is_spec_tok t = true.
+  exists t r, head_toks c v spec = t :: r /\ starts_decl t = true.
 Proof.
   intros Hs. unfold head_toks. destruct c; [eexists; eexists; split; [reflexivity | reflexivity]|].
   destruct v; [eexists; eexists; split; [reflexivity | reflexivity]|].
-  destruct spec as [|w ws]; [contradiction|]. eexists; eexists; split; [reflexivity | reflexivity].
+  destruct spec as [|w ws]; [contradiction|]. eexists; eexists; split; [reflexivity|].
+  unfold starts_decl, spec_tok. cbn [tk]. destruct (spec_wordb w); reflexivity.
 Qed.
 
 (* ---- consequences of [ends_decl] ---- *)
@@ -180,22 +207,64 @@ Proof.
     destruct (ueqb (p_ptr p) (cp "&")); split; try reflexivity; intros; discriminate.
 Qed.
 
+(* the kinds of token that can follow the type of a fragment declaration *)
+Definition after_spec (rest : list tok) : Prop :=
+  match rest with
+  | [] => True
+  | t :: _ => match tk t with STAR | REF | ID | LPAREN | COMMA | RPAREN | SEMICOLON => True | _ => False end
+  end.
+
+Lemma ends_decl_after rest : ends_decl rest -> after_spec rest.
+Proof. destruct rest as [|t r]; [exact (fun _ => I)|]. intros H. cbn [after_spec]. ends_tac H; exact I. Qed.
+
+Lemma dtor_first_kind c d rest : wf_dtorb c d = true -> ends_decl rest \/ (exists r, rest = tok_of LPAREN "(" :: r) ->
+  after_spec (dtor_toks d ++ rest).
+Proof.
+  destruct d as [ps name func]. intros H Hr. cbn [wf_dtorb] in H. apply andb_true_iff in H. destruct H as [Hp H].
+  cbn [dtor_toks]. destruct ps as [|p ps].
+  - cbn [map List.concat app]. destruct func as [f|]; [exact I|].
+    destruct name as [n|]; [exact I | discriminate].
+  - cbn [map List.concat ptr_toks app after_spec tk]. destruct (ueqb (p_ptr p) (cp "&")); exact I.
+Qed.
+
 (* ---- the specifier phase of a fragment declaration ---- *)
-Definition s_of (cst vol : bool) (spec : list ustr) : spec_state :=
-  {| ss_spec := spec; ss_storage := []; ss_const := cst; ss_volatile := vol; ss_tm := None; ss_targs := [];
+Definition s_of (cst vol : bool) (spec : list ustr) (otm : option ustr) : spec_state :=
+  {| ss_spec := spec; ss_storage := []; ss_const := cst; ss_volatile := vol; ss_tm := otm; ss_targs := [];
      ss_ctor := false; ss_dtor := None |}.
 
-Lemma decl_spec_head f c cst vol spec R : spec <> [] -> ends_spec_in c R -> 3 + List.length spec < f ->
-  p_decl_spec f c (head_toks cst vol spec ++ R) = Ok (s_of cst vol spec, R).
+Lemma decl_spec_head f c cst vol spec R : spec <> [] -> forallb spec_wordb spec = true -> ends_spec_in c R -> 3 + List.length spec < f ->
+  p_decl_spec f c (head_toks cst vol spec ++ R) = Ok (s_of cst vol spec None, R).
 Proof.
-  intros Hs HR Hf. destruct f as [|f']; [lia|]. cbn [p_decl_spec].
+  intros Hs Hw HR Hf. destruct f as [|f']; [lia|]. cbn [p_decl_spec].
   destruct (head_first cst vol spec Hs) as (t & r & Eh & Ht).
   assert (Hp : peek TILDE (head_toks cst vol spec ++ R) = false).
-  { rewrite Eh. cbn [app peek]. unfold is_spec_tok in Ht. destruct (tk t); try discriminate; reflexivity. }
+  { rewrite Eh. cbn [app peek]. unfold starts_decl in Ht. destruct (tk t); try discriminate; reflexivity. }
   rewrite Hp.
-  rewrite specifier_run_then_name; [| apply head_toks_spec | exact HR | pose proof (head_toks_length cst vol spec); lia].
+  rewrite specifier_run_then_name; [| apply head_toks_spec; exact Hw | exact HR | pose proof (head_toks_length cst vol spec); lia].
   change (fold_left spec_step (head_toks cst vol spec) _) with (fold_left spec_step (head_toks cst vol spec) s_init).
-  rewrite head_toks_fold. cbn [bind fst ss_spec]. destruct spec; [contradiction|]. reflexivity.
+  rewrite head_toks_fold by exact Hw. cbn [bind fst ss_spec]. destruct spec; [contradiction|]. reflexivity.
+Qed.
+
+(* a type name: looked up in scope, no "::" and no "<" follow, it is not the enclosing class *)
+Lemma after_spec_peeks c s f R : after_spec R ->
+  peek NAMESPACE R = false /\ peek LT R = false /\ p_specifier (S f) c true s R = Ok (s, R).
+Proof.
+  destruct R as [|t r]; [intros _; repeat split; reflexivity|]. cbn [after_spec peek p_specifier].
+  destruct (tk t); intros H; try contradiction; repeat split; reflexivity.
+Qed.
+
+Lemma p_spec_named f c s n id k tm ms R :
+  sym_lookup n (scope c) = Some (Sym id k (TmName tm) ms) -> cur_is_class c && Nat.eqb (cur_id c) id = false -> after_spec R ->
+  p_specifier (S (S f)) c false s ({| tk := ID; tv := n |} :: R) =
+  Ok ({| ss_spec := ss_spec s ++ [n]; ss_storage := ss_storage s; ss_const := ss_const s; ss_volatile := ss_volatile s;
+         ss_tm := Some tm; ss_targs := ss_targs s; ss_ctor := false; ss_dtor := ss_dtor s |}, R).
+Proof.
+  intros Hl Hc HR. destruct (after_spec_peeks c s f R HR) as (Hns & Hlt & _).
+  cbn [p_specifier tk tv]. rewrite Hl. cbn [p_nested]. rewrite Hns. cbn [bind p_targs]. rewrite Hlt. cbn [bind].
+  rewrite Hc. cbn [andb join_colons ss_spec ss_storage ss_const ss_volatile ss_tm ss_targs ss_ctor ss_dtor].
+  destruct (after_spec_peeks c {| ss_spec := ss_spec s ++ [n]; ss_storage := ss_storage s; ss_const := ss_const s; ss_volatile := ss_volatile s;
+         ss_tm := Some tm; ss_targs := ss_targs s; ss_ctor := false; ss_dtor := ss_dtor s |} f R HR) as (_ & _ & Hp).
+  exact Hp.
 Qed.
 
 Definition dt_toks (dt : option declarator) : list tok := match dt with Some x => dtor_toks x | None => [] end.
@@ -210,22 +279,22 @@ Lemma decl_toks_eq spec st c v tm dt params arr at_ init ta fc :
   decl_toks (Decl spec st c v tm dt params arr at_ init ta fc) = head_toks c v spec ++ dt_toks dt ++ par_toks params fc.
 Proof. cbn [decl_toks]. unfold head_toks, dt_toks, par_toks. rewrite <- !app_assoc. reflexivity. Qed.
 
-Lemma decl_toks_first c d : in_fragment c d = true -> exists t r, decl_toks d = t :: r /\ is_spec_tok t = true.
+Lemma decl_toks_first c d : in_fragment c d = true -> exists t r, decl_toks d = t :: r /\ starts_decl t = true.
 Proof.
   destruct d as [spec st cst vol tm dt params arr at_ init ta fc]. intros H. rewrite decl_toks_eq.
   assert (Hs : spec <> []). { cbn [in_fragment] in H. destruct spec; [discriminate | discriminate]. }
   destruct (head_first cst vol spec Hs) as (t & r & Eh & Ht). rewrite Eh. cbn [app]. eauto.
 Qed.
 
-Lemma spec_tok_not k t : is_spec_tok t = true -> k <> TYPE_SPECIFIER -> k <> TYPE_QUALIFIER -> k <> STORAGE_CLASS -> kind_eqb (tk t) k = false.
-Proof. unfold is_spec_tok. destruct (tk t); try discriminate; destruct k; try reflexivity; intros; contradiction. Qed.
+Lemma spec_tok_not k t : starts_decl t = true -> k <> TYPE_SPECIFIER -> k <> TYPE_QUALIFIER -> k <> ID -> kind_eqb (tk t) k = false.
+Proof. unfold starts_decl. destruct (tk t); try discriminate; destruct k; try reflexivity; intros; contradiction. Qed.
 
 Definition psum (ps : list decl) : nat := list_sum (map (fun p => S (dsize p)) ps).
 
 Lemma in_fragment_fields c spec st cst vol tm dt params arr at_ init ta fc :
   in_fragment c (Decl spec st cst vol tm dt params arr at_ init ta fc) = true ->
   spec <> [] /\ st = [] /\ arr = [] /\ at_ = [] /\ init = AVNone /\ ta = [] /\
-  tm = canonical (join_us spec) /\ ustr_in tm (known_types c) = true /\
+  spec_okb c spec tm = true /\
   match dt with Some x => wf_dtorb c x = true | None => True end /\
   match params with
   | None => fc = false
@@ -242,7 +311,6 @@ Proof.
   - destruct at_; [reflexivity | discriminate].
   - destruct init; try discriminate; reflexivity.
   - destruct ta; [reflexivity | discriminate].
-  - apply Proof.Splicer.ueqb_eq. assumption.
   - assumption.
   - destruct dt; [assumption | exact I].
   - destruct params as [ps|].
@@ -255,16 +323,57 @@ Proof.
     + match goal with Hx : negb fc = true |- _ => apply negb_true_iff in Hx; exact Hx end.
 Qed.
 
-Lemma get_canonical_s_of c cst vol spec :
-  get_canonical c (s_of cst vol spec) =
-  if ustr_in (canonical (join_us spec)) (known_types c) then Ok (canonical (join_us spec)) else Reject (cp "Unknown typemap").
+Lemma p_spec_const f c found s r :
+  p_specifier (S f) c found s (tok_of TYPE_QUALIFIER "const" :: r) =
+  p_specifier f c found {| ss_spec := ss_spec s; ss_storage := ss_storage s; ss_const := true; ss_volatile := ss_volatile s;
+                           ss_tm := ss_tm s; ss_targs := ss_targs s; ss_ctor := ss_ctor s; ss_dtor := ss_dtor s |} r.
 Proof. reflexivity. Qed.
+Lemma p_spec_volatile f c found s r :
+  p_specifier (S f) c found s (tok_of TYPE_QUALIFIER "volatile" :: r) =
+  p_specifier f c found {| ss_spec := ss_spec s; ss_storage := ss_storage s; ss_const := ss_const s; ss_volatile := true;
+                           ss_tm := ss_tm s; ss_targs := ss_targs s; ss_ctor := ss_ctor s; ss_dtor := ss_dtor s |} r.
+Proof. reflexivity. Qed.
+
+(* the specifier phase, for both kinds of type *)
+Lemma spec_phase f c cst vol spec tm R : spec <> [] -> spec_okb c spec tm = true -> ends_spec_in c R -> after_spec R ->
+  3 + List.length spec < f ->
+  exists otm, p_decl_spec f c (head_toks cst vol spec ++ R) = Ok (s_of cst vol spec otm, R) /\
+              get_canonical c (s_of cst vol spec otm) = Ok tm.
+Proof.
+  intros Hs Hok HR HA Hf. unfold spec_okb in Hok. destruct (named_type c spec) as [[id tm']|] eqn:En.
+  - (* a type name *)
+    apply andb_true_iff in Hok. destruct Hok as [Htm Hcls]. apply Proof.Splicer.ueqb_eq in Htm. subst tm'.
+    apply negb_true_iff in Hcls. unfold named_type in En.
+    destruct spec as [|n [|n2 l]]; try discriminate. destruct (spec_wordb n) eqn:Ew; [discriminate|].
+    destruct (sym_lookup n (scope c)) as [[id0 k0 [| |tm0] ms0]|] eqn:El; try discriminate. inversion En; subst id0 tm0.
+    exists (Some tm). split; [|reflexivity].
+    do 5 (destruct f as [|f]; [cbn [List.length] in Hf; lia|]).
+    cbn [p_decl_spec].
+    destruct (head_first cst vol [n] Hs) as (t & r & Eh & Ht).
+    assert (Hp : peek TILDE (head_toks cst vol [n] ++ R) = false).
+    { rewrite Eh. cbn [app peek]. unfold starts_decl in Ht. destruct (tk t); try discriminate; reflexivity. }
+    rewrite Hp. clear Hp Eh Ht t r.
+    unfold head_toks. cbn [map]. unfold spec_tok at 1. rewrite Ew.
+    destruct cst, vol; cbn [app];
+      rewrite ?p_spec_const, ?p_spec_volatile;
+      cbn [ss_spec ss_storage ss_const ss_volatile ss_tm ss_targs ss_ctor ss_dtor];
+      (erewrite p_spec_named; [| exact El | exact Hcls | exact HA]); reflexivity.
+  - (* built-in words *)
+    apply andb_true_iff in Hok. destruct Hok as [Hok Hkn]. apply andb_true_iff in Hok. destruct Hok as [Hw Htm].
+    apply Proof.Splicer.ueqb_eq in Htm. exists None. split.
+    + apply decl_spec_head; [exact Hs | exact Hw | exact HR | lia].
+    + unfold get_canonical, s_of. cbn [ss_tm ss_spec]. rewrite <- Htm, Hkn. reflexivity.
+Qed.
 
 Lemma psum_cons p ps : psum (p :: ps) = S (dsize p) + psum ps.
 Proof. reflexivity. Qed.
 
 Lemma void_in_fragment c : ustr_in (cp "void") (known_types c) = true -> in_fragment c void_decl = true.
-Proof. intros H. cbn [in_fragment void_decl]. rewrite H. reflexivity. Qed.
+Proof.
+  intros H. cbn [in_fragment void_decl]. unfold spec_okb, named_type. change (spec_wordb (cp "void")) with true.
+  cbn [forallb andb]. change (spec_wordb (cp "void")) with true. change (canonical (join_us [cp "void"])) with (cp "void").
+  change (ueqb (cp "void") (cp "void")) with true. rewrite H. reflexivity.
+Qed.
 
 Lemma roundtrip_both : forall fuel c,
   (forall d rest, dsize d < fuel -> in_fragment c d = true -> ends_decl rest ->
@@ -277,16 +386,20 @@ Proof.
   - (* a declaration *)
     intros d rest Hsz Hfr Hend.
     destruct d as [spec st cst vol tm dt params arr at_ init ta fc].
-    destruct (in_fragment_fields _ _ _ _ _ _ _ _ _ _ _ _ _ Hfr) as (Hs & -> & -> & -> & -> & -> & Htm & Hkn & Hdt & Hpar).
+    destruct (in_fragment_fields _ _ _ _ _ _ _ _ _ _ _ _ _ Hfr) as (Hs & -> & -> & -> & -> & -> & Hok & Hdt & Hpar).
     rewrite decl_toks_eq. cbn [dsize] in Hsz. rewrite <- !app_assoc.
     cbn [p_declaration].
     assert (HR : ends_spec_in c (dt_toks dt ++ par_toks params fc ++ rest)).
     { destruct dt as [x|]; cbn [dt_toks].
       - apply dtor_first_in; [exact Hdt|]. destruct params as [ps|]; cbn [par_toks app]; [right; eauto | left; exact Hend].
       - destruct params as [ps|]; [destruct Hpar as ((x & Hx & _) & _); discriminate|]. cbn [par_toks app]. apply ends_decl_spec; exact Hend. }
-    rewrite decl_spec_head; [| exact Hs | exact HR | lia].
-    cbn [bind]. rewrite get_canonical_s_of, <- Htm, Hkn. cbn [bind].
-    change (ss_ctor (s_of cst vol spec)) with false. change (ss_dtor (s_of cst vol spec)) with (@None ustr). cbn [orb].
+    assert (HA : after_spec (dt_toks dt ++ par_toks params fc ++ rest)).
+    { destruct dt as [x|]; cbn [dt_toks].
+      - apply (dtor_first_kind c); [exact Hdt|]. destruct params as [ps|]; cbn [par_toks app]; [right; eauto | left; exact Hend].
+      - destruct params as [ps|]; [destruct Hpar as ((x & Hx & _) & _); discriminate|]. cbn [par_toks app]. apply ends_decl_after; exact Hend. }
+    destruct (spec_phase f c cst vol spec tm _ Hs Hok HR HA ltac:(lia)) as (otm & Hspec & Hcanon).
+    rewrite Hspec. cbn [bind]. rewrite Hcanon. cbn [bind].
+    change (ss_ctor (s_of cst vol spec otm)) with false. change (ss_dtor (s_of cst vol spec otm)) with (@None ustr). cbn [orb].
     (* the declarator *)
     assert (Hdtor : p_declarator f (dt_toks dt ++ par_toks params fc ++ rest) = Ok (dt, par_toks params fc ++ rest)).
     { destruct dt as [x|]; cbn [dt_toks].
@@ -301,10 +414,10 @@ Proof.
     rewrite Hdtor. cbn [bind snd fst].
     assert (Htail : forall plist fconst,
       bind (p_arrays f [] rest) (fun ar =>
-      bind (p_attribute f (ctor_attrs (s_of cst vol spec)) (snd ar)) (fun at0 =>
+      bind (p_attribute f (ctor_attrs (s_of cst vol spec otm)) (snd ar)) (fun at0 =>
       let ts6 := snd at0 in
       let '(init, ts7) := if peek EQUALS ts6 then initializer (tl ts6) else (AVNone, ts6) in
-      Ok (decl_of (s_of cst vol spec) tm dt plist (fst ar) (fst at0) init fconst, ts7)))
+      Ok (decl_of (s_of cst vol spec otm) tm dt plist (fst ar) (fst at0) init fconst, ts7)))
       = Ok (Decl spec [] cst vol tm dt plist [] [] AVNone [] fconst, rest)).
     { intros plist fconst. destruct f as [|f']; [lia|]. cbn [p_arrays p_attribute].
       assert (Hpk : peek LBRACKET rest = false /\ peek PLUS rest = false /\ peek EQUALS rest = false).
@@ -372,6 +485,6 @@ Proof. intros c d rest fuel Hf He Hs. destruct (roundtrip_both fuel c) as [H _].
 Lemma decl_toks_not_kw c d : in_fragment c d = true ->
   match tk_of (decl_toks d) with KW_CLASS | KW_ENUM | KW_STRUCT | NAMESPACE | KW_TEMPLATE => False | _ => True end.
 Proof.
-  intros H. destruct (decl_toks_first c d H) as (t & r & Et & Hst). rewrite Et. cbn [tk_of]. unfold is_spec_tok in Hst.
+  intros H. destruct (decl_toks_first c d H) as (t & r & Et & Hst). rewrite Et. cbn [tk_of]. unfold starts_decl in Hst.
   destruct (tk t); try discriminate; exact I.
 Qed.
